@@ -760,11 +760,24 @@ pub fn gen(tier: Tier, r: &mut Rng, emit: &mut dyn FnMut(String)) {
     const SOUP: &[u8] = b"\\\\\\uuUdD89aAfF0123\"/bfnrtx \xc3\xa9\xf0\x9f\x98\x80\xed\xa0\x80\xff";
     for i in 0..m {
         let len = match i % 4 {
-            0 => r.usize_below(8),
-            1 => r.usize_below(16),
-            _ => r.usize_below(40),
+            0 => r.usize_below(4),
+            1 => r.usize_below(8),
+            _ => r.usize_below(16),
         };
-        let mut b: Vec<u8> = (0..len).map(|_| *r.pick(SOUP)).collect();
+        const PIECES: &[&[u8]] = &[
+            b"a", b"Z", b" ", b"/", b"\xc3\xa9", b"\xe2\x82\xac", b"\xf0\x9f\x98\x80", b"\\\\", b"\\\"", b"\\/", b"\\b", b"\\f",
+            b"\\n", b"\\r", b"\\t", b"\\u0041", b"\\u00e9", b"\\uD7FF", b"\\ue000", b"\\uFFFF", b"\\ud83d\\ude00",
+            b"\\uDBFF\\uDFFF", b"\\u", b"\\", b"u", b"d", b"8", b"0", b"\"",
+        ];
+        let mut b: Vec<u8> = Vec::new();
+        for _ in 0..len {
+            if r.chance(1, 12) {
+                b.push(*r.pick(SOUP));
+            } else {
+                let pc: &[u8] = *r.pick(PIECES);
+                b.extend_from_slice(pc);
+            }
+        }
         if i % 3 == 0 {
             // plant well-formed pieces
             let piece: &[u8] = *r.pick(&[&b"\\ud83d\\ude00"[..], b"\\uD800\\uDC00", b"\\udbff\\udfff", b"\\ud800\\u0041", b"\\udc00", b"\\u00e9", b"\\uFFFF", b"\\n", b"\\ud83d\\ude0", b"\\ud83d\\", b"\\ud83d"]);
